@@ -983,7 +983,9 @@ impl<'env> Executor<'env> {
             Error::new(ErrorKind::InvalidOperation, "cannot super outside of block")
         }));
 
-        if !state.blocks.get_mut(name).unwrap().push() {
+        // an included template runs with its own block table, which does not
+        // have to know the block the include tag sits in.
+        if !state.blocks.get_mut(name).is_some_and(|stack| stack.push()) {
             return Err(Error::new(
                 ErrorKind::InvalidOperation,
                 "no parent block exists",
